@@ -182,7 +182,7 @@ pub fn pick_cfg(r: &mut Rng) -> (CaseCfg, BackendSpec) {
     let rt_workers = *r.pick(&[0usize, 0, 2, 4]);
     let yield_every = *r.pick(&[None, None, Some(0usize), Some(3)]);
     let exec_yields = *r.pick(&[0u32, 0, 1]);
-    if r.chance(2, 5) {
+    if r.chance(2, 5) || std::env::var("QV_FORCE_MEM").is_ok() {
         (CaseCfg { backend: "InMemory".into(), rt_workers, yield_every, exec_yields }, BackendSpec::Mem)
     } else {
         let cap = *r.pick(&[1u64, 1, 2, 8, 64, 1 << 18]);
@@ -350,6 +350,92 @@ pub fn worker(ctx: &WorkerCtx, prop: &str) -> Report {
                     }
                     cf = c;
                     if !lowered {
+                        break;
+                    }
+                }
+            }
+            // The finding's other face: the firewall repair of a *user* request works from the
+            // requested query's own set of firewalls, and that set is only brought up to date
+            // when the query is verified. A root that has not been verified since a query below
+            // it changed its dependencies (and so may have started to read a new firewall) has
+            // an outdated set through no fault of the bookkeeping; the repair then descends with
+            // query-level callers, which never repair firewalls - the finding. No executor runs
+            // in that case, so the narrowed repair has nothing to work on: the user's repair of
+            // everything below the requested roots decides. A root that *was* verified after the
+            // last dependency change below it must know its firewalls (seeded change C01-a).
+            let first_is_user_value = out.oracle.violations.iter().find(|v| v.0 == "C01").is_some_and(|v| v.1 == "user-value-differs");
+            if first_is_user_value && !matches!(&cf, Ok(c) if !c.oracle.c01_violated) {
+                let step = out.oracle.first_c01_step.unwrap_or(0);
+                let roots: Vec<crate::model::NodeId> = match case.history.get(step) {
+                    Some(Step::Query { roots, .. }) => roots.clone(),
+                    _ => vec![],
+                };
+                let unverified_since_change = out.oracle.at_first_c01.as_ref().is_some_and(|(verified, changed)| {
+                    roots.iter().any(|r| {
+                        let l = verified.get(r).copied().unwrap_or(0);
+                        crate::eng::closure(&case.prog, &[*r]).iter().any(|d| changed.get(d).copied().unwrap_or(0) > l)
+                    })
+                });
+                if unverified_since_change {
+                    rep.count("counterfactual_below_roots_not_verified_since_a_dependency_change", 1);
+                    let mut only: BTreeMap<usize, BTreeSet<crate::model::NodeId>> = targets.clone();
+                    for (i, st) in case.history.iter().enumerate().skip(from) {
+                        if let Step::Query { roots, .. } = st {
+                            only.entry(i).or_default().extend(crate::eng::closure(&case.prog, roots));
+                        }
+                    }
+                    let (c, _) = run_spec(&spec, &case, &cfg, Some(Prerepair { from_step: from, only: Some(only) }));
+                    rep.count("counterfactual_runs", 1);
+                    cf = c;
+                }
+            }
+            // A latent occurrence. The finding can strike one epoch and show in the next: an
+            // executor-level read verifies a query Q below a still-dirty firewall; the firewall is
+            // repaired later in that epoch and dirties Q's edge, but a caller of Q that is verified
+            // after that finds Q stamped as verified in this epoch, keeps its value and *cleans its
+            // own edge to Q*. Nothing wrong was handed out yet (the stale values were not asked for,
+            // or happened to equal the right ones). In the next epoch Q is recomputed, its caller's
+            // edge is clean, and the caller is stale for good. The repair therefore has to start in
+            // the epoch of the latent occurrence: it is moved back, one query-bearing epoch at a
+            // time and at most three, with the same narrowing as above (only below the queries
+            // executors read on a single-thread runtime).
+            if !matches!(&cf, Ok(c) if !c.oracle.c01_violated) && (first_is_user_value || first_is_executor_read) {
+                let mut f = from;
+                'back: for back in 1..=3u64 {
+                    let old = f;
+                    while f > 0 {
+                        f = epoch_start(&case.history, f - 1);
+                        if case.history[f..old].iter().any(|s| matches!(s, Step::Query { .. })) {
+                            break;
+                        }
+                    }
+                    if f == old {
+                        break;
+                    }
+                    for _ in 0..4 {
+                        let only = if cfg.rt_workers > 0 { None } else { Some(targets.clone()) };
+                        let (c, _) = run_spec(&spec, &case, &cfg, Some(Prerepair { from_step: f, only }));
+                        rep.count("counterfactual_runs", 1);
+                        let mut grown = false;
+                        if matches!(&c, Ok(c) if !c.oracle.c01_violated) {
+                            rep.count("counterfactual_cleared_from_an_earlier_epoch_latent_occurrence", 1);
+                            rep.max("latent_occurrence_epochs_back", back);
+                            cf = c;
+                            break 'back;
+                        }
+                        if let Ok(c) = &c {
+                            for (st, set) in &c.exec_read_targets {
+                                let e = targets.entry(*st).or_default();
+                                for n in set {
+                                    grown |= e.insert(*n);
+                                }
+                            }
+                        }
+                        if !grown || cfg.rt_workers > 0 {
+                            break;
+                        }
+                    }
+                    if f == 0 {
                         break;
                     }
                 }
